@@ -47,20 +47,26 @@ class LogitDynamics:
 
         self.beta = beta
 
+        # Kept on this object (not on the players, which are shared with
+        # the game and with any other dynamics built on it)
+        cdfs = []
         for player in self.players:
             payoff_array_rotated = \
                 player.payoff_array.transpose((*range(1, self.N), 0))
             payoff_array_rotated = payoff_array_rotated - \
                 payoff_array_rotated.max(axis=-1)[..., np.newaxis]
-            player.logit_choice_cdfs = \
+            cdfs.append(
                 np.exp(payoff_array_rotated*self.beta).cumsum(axis=-1)
+            )
+            player.logit_choice_cdfs = cdfs[-1]  # For backward compatibility
+        self._logit_choice_cdfs = tuple(cdfs)
 
     def logit_choice_cdfs(self):
         """
         Return the tuple of choice probabilities.
 
         """
-        return tuple(player.logit_choice_cdfs for player in self.players)
+        return self._logit_choice_cdfs
 
     def _play(self, player_ind, actions, random_state):
         i = player_ind
@@ -69,7 +75,7 @@ class LogitDynamics:
         opponent_actions = \
             tuple(actions[i+1:]) + tuple(actions[:i])
 
-        cdf = self.players[i].logit_choice_cdfs[opponent_actions]
+        cdf = self._logit_choice_cdfs[i][opponent_actions]
         random_value = random_state.random()
         next_action = cdf.searchsorted(random_value*cdf[-1], side='right')
 
